@@ -44,6 +44,22 @@ def predicates(case, out):
                 bad.append({"step": i, "failed": f"high timeout certificate view decreased {prev[2]} -> {cur[2]}"})
             if cur[0] > prev[0] and max(cur[1], cur[2]) < cur[0] - 1:
                 bad.append({"step": i, "failed": f"moved to view {cur[0]} holding no certificate for view {cur[0] - 1}"})
+            # the view entered must be the successor of the view of the certificate this very step
+            # completed (votes) or received (new-view / proposal): "only on a certificate for the preceding view"
+            if cur[0] > prev[0] and op is not None and ob[0] == [0]:
+                inner = op["op"] if op["t"] == "crash" else op
+                if inner.get("t") == "msg":
+                    m = inner["m"]
+                    want = None
+                    if "commit" in m:
+                        want = int(m["commit"]["v"]["n"]) + 1
+                    elif "timeout" in m:
+                        want = int(m["timeout"]["v"]["n"]) + 1
+                    else:
+                        j = (m.get("proposal") or m.get("new_view"))["j"]
+                        want = int(j["commit"]["msg"]["v"]["n"] if "commit" in j else j["timeout"]["v"]["n"]) + 1
+                    if want != cur[0]:
+                        bad.append({"step": i, "failed": f"the step completed/received a certificate for view {want - 1} but the replica moved to view {cur[0]} (a view change must be to the successor of the certificate's view)"})
         if ob[0] and ob[0][0] == 1:
             bad.append({"step": i, "failed": "handler panicked"})
         prev = cur
